@@ -23,6 +23,17 @@ type Case struct {
 	Sizes     []int            `json:"sizes"`     // items per partition
 	Asker     int              `json:"asker"`
 	Beh       []lite.Behaviour `json:"beh"` // per target node
+	// Moves: partitions that have moved away from one of their hosts; only that former host (and the new host) know,
+	// every other node - the asker included - still has the old replica list
+	Moves []Move `json:"moves,omitempty"`
+}
+
+type Move struct {
+	P           int  `json:"p"`
+	From        int  `json:"from"`  // index into Placement[P]: the host that gave the partition up
+	To          int  `json:"to"`    // node selector for the new host (a node not hosting P)
+	Extra       int  `json:"extra"` // items written to the partition after the move
+	ViaSnapshot bool `json:"via_snapshot"`
 }
 
 func genCase(t *rapid.T) Case {
@@ -42,9 +53,19 @@ func genCase(t *rapid.T) Case {
 			b = lite.Behaviour{Kind: lite.BehDelay, DelayUs: rapid.IntRange(0, 400).Draw(t, "us")}
 		}
 		if faulty && rapid.IntRange(0, 1).Draw(t, "fail") == 0 {
-			b = lite.Behaviour{Kind: rapid.SampledFrom([]int{lite.BehError, lite.BehHang, lite.BehNoClient}).Draw(t, "failkind")}
+			b = lite.Behaviour{Kind: rapid.SampledFrom([]int{lite.BehError, lite.BehError, lite.BehHang, lite.BehNoClient}).Draw(t, "failkind")}
+			if b.Kind == lite.BehError {
+				// plain error, or a gRPC status: Canceled (1), Unknown (2), DeadlineExceeded (4), Internal (13), Unavailable (14)
+				b.Code = rapid.SampledFrom([]int{0, 1, 1, 2, 4, 13, 14}).Draw(t, "code")
+			}
 		}
 		c.Beh = append(c.Beh, b)
+	}
+	if c.Nodes >= 2 && rapid.IntRange(0, 3).Draw(t, "moved") == 0 {
+		for i, n := 0, rapid.IntRange(1, 2).Draw(t, "nmoves"); i < n; i++ {
+			c.Moves = append(c.Moves, Move{P: rapid.IntRange(0, p-1).Draw(t, "mp"), From: rapid.IntRange(0, 3).Draw(t, "mfrom"), To: rapid.IntRange(0, 3).Draw(t, "mto"),
+				Extra: rapid.IntRange(0, 4).Draw(t, "mextra"), ViaSnapshot: rapid.Bool().Draw(t, "msnap")})
+		}
 	}
 	return c
 }
@@ -85,6 +106,77 @@ func check(c Case, o *pbt.Obs) *pbt.Failure {
 		}
 		wantLen += uint64(c.Sizes[p])
 		wantBytes += bs
+	}
+	// partitions that moved: the former host learns it through its catalogue (snapshot or log), the new hosts hold the
+	// current contents, the former host keeps its frozen left-over index
+	movedFrom := map[int]bool{} // node indexes that gave a partition up
+	doneP := map[int]bool{}
+	for _, mv := range c.Moves {
+		pi := mv.P % len(c.Placement)
+		hosts := c.Placement[pi]
+		if doneP[pi] {
+			continue
+		}
+		from := hosts[mv.From%len(hosts)]
+		if from == c.Asker {
+			continue // the asker's own view stays the old one
+		}
+		to := -1
+		for k := 0; k < c.Nodes; k++ {
+			cand := (mv.To + k) % c.Nodes
+			hosting := false
+			for _, h := range hosts {
+				if h == cand {
+					hosting = true
+				}
+			}
+			if !hosting {
+				to = cand
+				break
+			}
+		}
+		if to < 0 {
+			continue
+		}
+		doneP[pi] = true
+		var newHosts []int
+		for _, h := range hosts {
+			if h != from {
+				newHosts = append(newHosts, h)
+			}
+		}
+		newHosts = append(newHosts, to)
+		if err := cl.MovePartition(from, pi, newHosts, mv.ViaSnapshot); err != nil {
+			return pbt.Failf("C17:catalogue-apply", "node %d: applying the move of partition %d returned %v", from, pi, err)
+		}
+		if err := cl.MovePartition(to, pi, newHosts, mv.ViaSnapshot); err != nil {
+			return pbt.Failf("C17:catalogue-apply", "node %d: applying the move of partition %d returned %v", to, pi, err)
+		}
+		movedFrom[from] = true
+		// the new host gets the contents, then everybody who still hosts the partition gets Extra more items
+		idxTo := cl.Nodes[to].Dataset.VerifPartitionIndex(pi)
+		for i := 0; i < c.Sizes[pi]; i++ {
+			if err := idxTo.Insert(gen.ID(10+100*pi+i), amath.Vector{float32(pi), float32(i)}, index.Metadata{"p": fmt.Sprint(pi)}, i%3); err != nil {
+				panic(err)
+			}
+		}
+		var bs uint64
+		for _, h := range newHosts {
+			idx := cl.Nodes[h].Dataset.VerifPartitionIndex(pi)
+			before := idx.BytesSize()
+			for i := 0; i < mv.Extra; i++ {
+				if err := idx.Insert(gen.ID(10+100*pi+50+i), amath.Vector{float32(pi), float32(50 + i)}, index.Metadata{"p": fmt.Sprint(pi)}, i%3); err != nil {
+					panic(err)
+				}
+			}
+			bs = idx.BytesSize() - before
+		}
+		wantLen += uint64(mv.Extra)
+		wantBytes += bs
+		o.Label("partition-moved-off-a-host")
+		if mv.ViaSnapshot {
+			o.Label("move-learned-through-catalogue-snapshot")
+		}
 	}
 	anyFaulty := false
 	for i, b := range c.Beh {
@@ -152,7 +244,7 @@ func check(c Case, o *pbt.Obs) *pbt.Failure {
 		o.Label("deadline-without-failure(inconclusive)")
 		return nil
 	} else {
-		if !anyFaulty {
+		if !anyFaulty && len(movedFrom) == 0 {
 			return pbt.Failf("C17:spurious-error", "%s: SizeInfo failed with %v although every node answers; lookups=%s", desc, err, renderCalls(calls))
 		}
 		if failed == 0 && remote > 0 && len(unreachable) == 0 {
@@ -191,7 +283,7 @@ func renderCalls(cs []*lite.InfoCall) string {
 func TestSizeInfo(t *testing.T) {
 	pbt.Run(t, pbt.Prop[Case]{
 		ID: "C17", Name: "TestSizeInfo",
-		Rule: "rapid-generated layer-B0 clusters (1-4 simulated nodes with the repository's Dataset objects, 1-8 partitions with generated replica sets, 0-9 items per partition, generated asking node, per-node PartitionInfo behaviour ok/delay/error/hang via in-memory DataManager client shims that call the real server); oracle: on success (len,bytes) equal the sums over partitions of the harness-known sizes, whatever lookups happened; an error is accepted only if some consulted lookup failed or some peer is unreachable (no client, no address); non-trivial = >=2 partitions remote to the asking node; distinct = distinct case JSON",
+		Rule: "rapid-generated layer-B0 clusters (1-4 simulated nodes with the repository's Dataset objects, 1-8 partitions with generated replica sets, 0-9 items per partition, generated asking node, per-node PartitionInfo behaviour ok/delay/error (plain or gRPC status Canceled/Unknown/DeadlineExceeded/Internal/Unavailable)/hang via in-memory DataManager client shims that call the real server; in a quarter of the cases 1-2 partitions have moved off one of their hosts - the former host learned it through its catalogue, as a snapshot or as log entries, the asker still has the old replica list - and were written to afterwards); oracle: on success (len,bytes) equal the sums over partitions of the harness-known sizes, whatever lookups happened; an error is accepted only if some consulted lookup failed or some peer is unreachable (no client, no address); non-trivial = >=2 partitions remote to the asking node; distinct = distinct case JSON",
 		Gen:   genCase,
 		Check: check,
 	})
